@@ -60,7 +60,9 @@ Mutate(r, kind) ==
   /\ r \in DOMAIN res
   /\ res' = [res EXCEPT ![r] = CASE kind = "clear" -> {}
                                  [] kind = "add" -> @ \cup {Foreign}
-                                 [] kind = "discard" -> IF @ = {} THEN {} ELSE @ \ {CHOOSE x \in @ : \A y \in @ : x <= y}]
+                                 [] kind = "discard" -> IF @ = {} THEN {} ELSE @ \ {CHOOSE x \in @ : \A y \in @ : x <= y}
+                                 \* size-preserving edit: one element out, a foreign one in
+                                 [] kind = "swap" -> IF @ = {} THEN {} ELSE (@ \ {CHOOSE x \in @ : \A y \in @ : x <= y}) \cup {Foreign}]
   /\ hist' = Append(hist, [op |-> "mutate", r |-> r, kind |-> kind])
   /\ UNCHANGED <<ks, fairmemo>>
 Drop(r) == /\ r \in DOMAIN res /\ res' = [x \in DOMAIN res \ {r} |-> res[x]]
@@ -69,7 +71,7 @@ Next == \/ \E k \in 1..Len(KPool), j \in 1..Len(FPool), mode \in {"obj", "text"}
         \/ \E k \in 1..Len(KPool), b \in 1..Len(BadPool), fair \in Fairs : BadCall(k, b, fair)
         \/ \E k \in 1..Len(KPool), st \in 0..2, a \in {"p", "q"}, add \in BOOLEAN : st \in States(ks[k]) /\ EditLabel(k, st, a, add)
         \/ \E k \in 1..Len(KPool), st \in 0..2, d \in 0..2 : st \in States(ks[k]) /\ d \in States(ks[k]) /\ EditEdge(k, st, d)
-        \/ \E r \in ResIds, kind \in {"clear", "add", "discard"} : Mutate(r, kind)
+        \/ \E r \in ResIds, kind \in {"clear", "add", "discard", "swap"} : Mutate(r, kind)
         \/ \E r \in ResIds : Drop(r)
 Spec == Init /\ [][Next]_vars
 Last == hist'[Len(hist')]
